@@ -546,7 +546,22 @@ def inline_new_locals(fn, ref_names, limit: int = 8) -> int:
                                                      ast.cmpop, ast.boolop, ast.unaryop, ast.Constant,
                                                      ast.BinOp, ast.operator, ast.IfExp))
                                       for z in ast.walk(st.value))
-                    relaxed = stable_attr or locals_only
+                    # an expression over constants, un-rebound local names and attribute chains
+                    # (rooted at self or at an un-rebound name) that this function never stores to
+                    def _stable_leaf(z):
+                        if isinstance(z, ast.Attribute):
+                            c_ = z
+                            while isinstance(c_, ast.Attribute):
+                                c_ = c_.value
+                            return isinstance(c_, ast.Name) and not any(
+                                isinstance(w, ast.Attribute) and isinstance(w.ctx, (ast.Store, ast.Del))
+                                and ast.unparse(w) == ast.unparse(z) for w in ast.walk(fn))
+                        return True
+                    stable_expr = all(isinstance(z, (ast.Name, ast.Load, ast.Compare, ast.BoolOp, ast.UnaryOp,
+                                                     ast.cmpop, ast.boolop, ast.unaryop, ast.Constant,
+                                                     ast.BinOp, ast.operator, ast.IfExp, ast.Attribute))
+                                      and _stable_leaf(z) for z in ast.walk(st.value))
+                    relaxed = stable_attr or locals_only or stable_expr
                     for x in _effect_nodes_between(rest):
                         if any(x is l for l in loads):
                             seen += 1
